@@ -222,12 +222,14 @@ TEMPLATES = ["machine.a", "machine.a + machine.b", "machine.a if machine.b > 5 e
              "machine.b if machine.a == 3 else (machine.u + 1)", "machine.a == 1 or machine.u > 2",
              # index access reads the same variables as attribute access
              "device.counters.c['value']", "device['counters']['c']['value'] + machine['a']", "current_player['v']",
-             "players[0]['v']"]
+             "players[0]['v']",
+             # a setting whose machine variable has another name than the setting
+             "settings.t", "settings.t + machine.a"]
 
 
 class FreshDriver(MachineDriver):
     machine_name = "c16"
-    CHANGES = [("a", 1), ("a", 2), ("b", 6), ("s", 1), ("s", 3), ("v", 8), ("v", 7), ("c", 1), ("c", 2), ("u", 1), ("u", 5),
+    CHANGES = [("a", 1), ("a", 2), ("b", 6), ("s", 1), ("s", 3), ("t", 3), ("v", 8), ("v", 7), ("c", 1), ("c", 2), ("u", 1), ("u", 5),
                ("rm", "b"), ("add_player",), ("end_turn",)]
 
     def setup(self):
@@ -261,7 +263,7 @@ class FreshDriver(MachineDriver):
         cur = players[g.player.index] if g and g.player else None
         env = {"x": 2, "machine": ns(a=self.m.variables.get_machine_var("a"), b=self.m.variables.get_machine_var("b"),
                                      u=self.m.variables.get_machine_var("u")),
-               "settings": ns(s=self.m.settings.get_setting_value("s")), "players": players,
+               "settings": ns(s=self.m.settings.get_setting_value("s"), t=self.m.settings.get_setting_value("t")), "players": players,
                "device": ns(counters=ns(c=ns(value=self.m.counters["c"].value)))}
         if cur is not None:
             env["current_player"] = cur
@@ -279,8 +281,8 @@ class FreshDriver(MachineDriver):
             m.variables.set_machine_var(op[0], op[1])
         elif op[0] == "rm":
             m.variables.remove_machine_var(op[1])
-        elif op[0] == "s":
-            m.settings.set_setting_value("s", op[1])
+        elif op[0] in ("s", "t"):
+            m.settings.set_setting_value(op[0], op[1])
         elif op[0] == "v":
             if m.game and m.game.player:
                 m.game.player["v"] = op[1]
